@@ -409,6 +409,12 @@ def _rx(self, e, fr):
         return SOpaque("RawX", None, {"is_df": z3.BoolVal(False), "ndim": z3.IntVal(0), "d0": z3.IntVal(0), "d1": z3.IntVal(0),
                                       "cols": z3.Const("cols!none", cols),
                                       "vals": z3.K(INT, z3.K(INT, to_real(v))) if False else _const2(to_real(v))})
+    if isinstance(v, SNd) and v.shape is not None and len(v.shape) == 2:
+        # an internal 2-D array handed back to a validating method (e.g. the remembered batch of KdqTreeBatch)
+        i, j = z3.Ints("i!k2 j!k2")
+        return SOpaque("RawX", None, {"is_df": z3.BoolVal(False), "ndim": z3.IntVal(2), "d0": b2i(z(v.shape[0])),
+                                      "d1": b2i(z(v.shape[1])), "cols": z3.Const("cols!none", self.ctx.sort("Cols")),
+                                      "vals": z3.Lambda([i, j], to_real(v.elem((i, j))))})
     if not (isinstance(v, SOpaque) and v.sort == "RawX"):
         raise Unsupported("expected a raw X input, got %r" % (v,))
     return v
